@@ -96,6 +96,11 @@ MUTANTS = [
     ("c19-skips-user-keyboard", "internal/pkg/midi/device/config/monitor.go", "\t\t\tuserKeyboard,\n\t\t} {\n\t\t\terr = watcher.Add(path)", "\t\t} {\n\t\t\terr = watcher.Add(path)", ["C19"]),
     ("c19-close-not-propagated", "internal/pkg/midi/device/config/monitor.go", "\t\tdefer close(change)\n", "", ["C19"]),
     ("c19-every-second-write", "internal/pkg/midi/device/config/monitor.go", "\t\tfor event := range watcher.Events {\n", "\t\tn := 0\n\t\tfor event := range watcher.Events {\n\t\t\tn++\n\t\t\tif n > 12 && n%2 == 0 {\n\t\t\t\tcontinue\n\t\t\t}\n", ["C19"]),
+    ("c20-group-by-name", "internal/pkg/input/info.go", "return PhysicalID(d.Phys)\n}\n", "return PhysicalID(d.Phys + d.Name[:1])\n}\n", ["C20"]),
+    ("c20-keyboard-contains-only", "internal/pkg/input/device.go", "\tcase contains(handlers, DI_TYPE_STD_KBD):", "\tcase containsOnly(handlers, DI_TYPE_STD_KBD):", ["C20"]),
+    ("c20-first-handler-decides", "internal/pkg/input/device.go", "dev.DeviceType = DetermineDeviceType(foo)", "dev.DeviceType = DetermineDeviceType(foo[:1])", ["C20"]),
+    ("c20-has-depends-on-first", "internal/pkg/input/info.go", "\tcase has(d.CapableTypes, evdev.EV_ABS):\n\t\treturn DI_TYPE_JOYSTICK", "\tcase len(d.CapableTypes) > 0 && d.CapableTypes[0] != evdev.EV_ABS && has(d.CapableTypes, evdev.EV_ABS):\n\t\treturn DI_TYPE_JOYSTICK", ["C20"]),
+    ("c20-drop-last-of-big-group", "internal/pkg/input/device.go", "\t\tfor _, di := range dis {\n\t\t\thandler := Handler{", "\t\tfor i, di := range dis {\n\t\t\tif i == 4 {\n\t\t\t\tbreak\n\t\t\t}\n\t\t\thandler := Handler{", ["C20"]),
     ("c14-check-before-insert", EVS,
      "\t\td.keyTracker[ie.Event.Code] = struct{}{}\n\t\tok := d.checkExitSequence()", "\t\tok := d.checkExitSequence()\n\t\td.keyTracker[ie.Event.Code] = struct{}{}", ["C14"]),
     ("c14-not-swallowed", EVS, "\t\t\t// this simple hack prevents from hanging\n\t\t\treturn", "\t\t\t// this simple hack prevents from hanging", ["C14"]),
